@@ -100,6 +100,24 @@ def schemas(tier):
     yield [P, {'id': '#k', 'name': [['pat', 'z'], ['pat', 'w']], 'cons': [[['z', [['pat', 'x']]], ['w', [['pat', 'y']]]], [['z', [['pat', 'y']]], ['w', [['pat', 'x']]]]], 'sign': []}]
 
 
+    yield from family_schemas()
+
+
+FAMILY_POOL = [('a',), ('b',), ('c',)] + list(itertools.product('ab', repeat=2)) + list(itertools.product('ab', repeat=3))
+
+
+def family_schemas():
+    """the feature-combination families of mc/lvsgen.py with a signing relation: a packet rule signed by the family's last rule"""
+    for fam in lvsgen.families():
+        if any(r['sign'] for r in fam):
+            yield fam
+        else:
+            d = {'id': '#d', 'name': [['lit', 'c']], 'cons': [], 'sign': [fam[-1]['id']]}
+            yield fam + [d]
+            if len(fam) == 3:
+                yield [d] + fam
+
+
 def name_pool(tier):
     out = []
     for n in (1, 2):
@@ -141,7 +159,7 @@ def check_schema(schema, tier, acc=None):
         bad(f'reload-raises:{type(e).__name__}@{tb_where(e)}', f'{e!r}')
         return 'reload-raises', viol
     ref = lvs_ref.RefSchema(schema, FNS)
-    pool = name_pool(tier)
+    pool = FAMILY_POOL if schema[-1]['id'] == '#d' or schema[0]['id'] == '#d' or schema[-1]['name'][-1] == ['lit', 'b'] and len(schema[-1]['name']) == 3 else name_pool(tier)
     names = [(t, comp_name(t)) for t in pool]
     key_matches = {}
     nyes = 0
@@ -265,7 +283,7 @@ def unit(arg):
         if key == 'rejected':
             acc.no_claim += 1
         pp = {e[1] for e in schema[0]['name'] if e[0] == 'pat'}
-        kp = {e[1] for e in schema[1]['name'] if e[0] == 'pat'}
+        kp = {e[1] for e in schema[1]['name'] if e[0] == 'pat'} if len(schema) > 1 else set()
         if (pp & kp) or schema[1]['cons']:
             acc.nontrivial += 1
         acc.outcome(f'{len(schema)}rules|{key}')
